@@ -890,3 +890,76 @@ Proof.
     + apply Forall_forall. intros c Hc'. rewrite forallb_forall in H2.
       apply Pos.ltb_lt. now apply H2.
 Qed.
+
+(* ================================================================== *)
+(* PrettyString of a document is the pure rendering of its JSON tree    *)
+
+Fixpoint jr_items (l : list jvalue) (first : bool) : bytes :=
+  match l with
+  | [] => []
+  | x :: r => (if first then [] else bs ", ") ++ jrender true x ++ jr_items r false
+  end.
+Fixpoint jr_fields (l : list (bytes * jvalue)) (first : bool) : bytes :=
+  match l with
+  | [] => []
+  | (k, x) :: r =>
+    (if first then [] else bs ", ") ++ 34%N :: k ++ 34%N :: bs ": " ++ jrender true x ++ jr_fields r false
+  end.
+Lemma jrender_arr : forall q l, jrender q (JArr l) = 91%N :: jr_items l true ++ [93%N].
+Proof. reflexivity. Qed.
+Lemma jrender_obj : forall q l, jrender q (JObj l) = 123%N :: jr_fields l true ++ [125%N].
+Proof. reflexivity. Qed.
+
+Lemma pretty_doc : forall h,
+  (forall p v j, doc_at h p v j -> forall n path quote check,
+     (Pos.to_nat p < n)%nat -> path_above p path ->
+     pretty_fuel n h path quote check v = Some (jrender quote j)) /\
+  (forall p cs js, doc_cells h p cs js -> forall n path first,
+     (Pos.to_nat p < n)%nat -> path_above p path ->
+     pp_items (pretty_fuel n h path true true) h cs first = Some (jr_items js first)) /\
+  (forall p cs js, doc_fields h p cs js -> forall n path first,
+     (Pos.to_nat p < n)%nat -> path_above p path ->
+     pp_fields (pretty_fuel n h path true true) h cs first = Some (jr_fields js first)).
+Proof.
+  intro h. apply doc_mutind.
+  - intros p n path quote check Hn _. destruct n; [lia|]. now rewrite pretty_fuel_scalar.
+  - intros p b n path quote check Hn _. destruct n; [lia|]. rewrite pretty_fuel_scalar by reflexivity.
+    destruct b; reflexivity.
+  - intros p f n path quote check Hn _. destruct n; [lia|]. now rewrite pretty_fuel_scalar.
+  - intros p s n path quote check Hn _. destruct n; [lia|]. now rewrite pretty_fuel_scalar.
+  - intros p b js Hb _ IH n path quote check Hn Hp. destruct n as [|f]; [lia|].
+    rewrite pretty_fuel_S.
+    rewrite (existsb_same_above h p) by (auto; exact Hb). rewrite andb_false_r.
+    rewrite arr_cells_full. rewrite IH; [now rewrite jrender_arr|lia|].
+    eapply path_above_snoc; [exact Hp|lia|lia].
+  - intros p o fs Ho _ IH n path quote check Hn Hp. destruct n as [|f]; [lia|].
+    rewrite pretty_fuel_S.
+    rewrite (existsb_same_above h p) by (auto; exact Ho). rewrite andb_false_r.
+    rewrite IH; [now rewrite jrender_obj|lia|].
+    eapply path_above_snoc; [exact Hp|lia|lia].
+  - intros. reflexivity.
+  - intros p c cs j js Hc Hu _ IHd _ IHc n path first Hn Hp. cbn [pp_items jr_items].
+    rewrite IHd by assumption. now rewrite IHc.
+  - intros. reflexivity.
+  - intros p k c cs j js Hc Hu _ IHd _ IHc n path first Hn Hp. cbn [pp_fields jr_fields].
+    rewrite IHd by assumption. now rewrite IHc.
+Qed.
+
+(* a document is printed in full: never a cycle marker, never out of fuel *)
+Theorem pretty_string_doc : forall h p v j, doc_at h p v j -> p <= next h ->
+  pretty_string h v = Some (jrender false j) /\
+  (forall f path check, (Pos.to_nat p < f)%nat -> path_above p path ->
+     pretty_fuel f h path true check v = Some (jrender true j)).
+Proof.
+  intros h p v j Hd Hp. split.
+  - unfold pretty_string. rewrite container_fuel_S.
+    apply (proj1 (pretty_doc h) (next h)); [eapply doc_mono; eauto|lia|intros r []].
+  - intros f path check Hf Hpa. now apply (proj1 (pretty_doc h) p).
+Qed.
+
+Theorem pretty_new_value : forall j h v h',
+  new_value j h = (v, h') -> pretty_string h' v = Some (jrender false j).
+Proof.
+  intros j h v h' E. destruct (new_value_doc j h v h' E) as [_ Hd].
+  eapply pretty_string_doc; [exact Hd|lia].
+Qed.
